@@ -8,6 +8,18 @@ NOT_YET = {}
 TB = ("Trusted: Lean kernel (axioms propext, Classical.choice, Quot.sound only; audited by #print axioms on every run); "
       "the hand-written model's correspondence to the code (differential, bounded by the generators whose distribution is in the evidence); ")
 CLAIMS = {
+ "C02": dict(
+  category="proof",
+  text=("Lean 4 theorems: for every server state in the Valve specification's domain the model of each section parser "
+        "(A2S_INFO Source layout with all 32 extra-data flag subsets, either case of the type bytes and The Ship fields; "
+        "obsolete GoldSrc layout with/without mod data; A2S_PLAYER with 0-255 players; A2S_RULES with 0-65535 distinct rules "
+        "incl. the Risk of Rain 2 quirk) applied to the SPEC encoding returns exactly that state (unbounded strings and lists, by "
+        "induction / a compositional decoding logic). The model of the whole query (challenge loop, split reassembly, retry, "
+        "gather toggles, app-id check) is tied to the code by running both on SPEC-generated exchanges (0-3 challenge rounds, "
+        "single / Source split / GoldSrc split) and on structured mutations of them; the SPEC's expected response is compared "
+        "with the implementation's as the property oracle."),
+  note=TB + "SPEC encoders are hand-written from the Valve Server Queries page; bzip2-rs/crc32fast are parameters (oracle table from Python bz2 at check time); whole-query composition (transport + sections) is covered by the correspondence, the theorems are per section parser.",
+  technique="Lean 4 proof (compositional decode∘encode = id per section) + SPEC-driven model/implementation correspondence"),
  "C17": dict(
   category="proof",
   text=("Lean 4 theorems over a model of buffer.rs and the Minecraft VarInt/string codecs: no operation history crashes or "
